@@ -1063,6 +1063,9 @@ def main(tier):
     st7 = {"sites": 0}
     for fi7 in [f for n7, f in ii7.methods.items() if n7 not in ("__init__",)] + [prog.func("iindexes", "column_stack")]:
         c07.analyse_root(prog, fi7, sub7, st7)
+    c07.update_order_rule(prog, sub7)
+    c07.update_clear_cases(prog, sub7)
+    c07.complement_routine(prog, sub7)
     k7 = 0
     for o in sub7.obls:
         k7 += 1
